@@ -2213,8 +2213,10 @@ chld_cb(EV_P_ ev_child *c, int UNUSED(revents))
 	c->rpid = c->pid = 0;
 	t->nsim--;
 
-	if (UNLIKELY(t->w.reschedule_cb == NULL)) {
-		/* we promised taskB_cb to kill this guy */
+	if (UNLIKELY(t->w.reschedule_cb == NULL && !t->nsim)) {
+		/* we promised taskB_cb to kill this guy,
+		 * but only the last child to finish may do so
+		 * the others still point to him */
 		unsched(EV_A_ &t->w, 0);
 	}
 	free_chld(c);
